@@ -58,6 +58,9 @@ CLAIMS = {
     "C10": ("property-based testing (rapid): differential against HCL's own Variables() on the places a reference model (constraint-directed structural descent on the serialisable schema) says admit references",
             "Generated schemas and type-correct, reference-heavy expressions; the expected set of (address, range) is computed from HCL's Variables() restricted to admitting places of the effective schema and compared with CollectReferenceOrigins (local origins exactly, ordering, path and direct origins).",
             "4/C10", TRUST + " Statement-silent classes (for iterator variables, arguments of unknown / parameterless functions, surplus arguments, key expressions, dynamic blocks) are don't-care regions."),
+    "C09": ("property-based testing (rapid) against a reference model of addressable declarations (addresses from declared steps, body types, extents from the parser AST) plus structural rules on the collected tree",
+            "Generated schemas with every addressing form and generated configurations; completeness (each addressable declaration of the effective schema yields its target with the modelled address / scope / type / range / definition range), soundness (each collected target is explained by an addressable declaration and carries its address; nothing for unknown items) and structure (nested address = parent + one step, list indexes in source order, own extents).",
+            "4/C09", TRUST + " One known finding (D21, first element of a block group) is listed in known_findings.json; types of expression-typed attributes are only modelled for plain literals."),
 }
 
 def main():
